@@ -65,6 +65,19 @@ def cases(rng, tier):
             out.append({"lens": lens, "how": how, "name": name, "dtype": dt, "axis": axis, "keepdims": keep, "vseed": rng.randint(0, 999),
                         "vmode": rng.choice(["rare", "rare", "rare", "cancel", "cancel", "small", "small", "small", "small", "small"]),
                         "derived": rng.choice(gens.DERIVATIONS)})
+    # reductions over the WHOLE array (no axis) of cells that all lie on one side of zero, with empty rows first / last / in between:
+    # an empty row contributes nothing -- in particular no 0 -- to the maximum, the minimum, the product ...
+    for _ in range(120 if tier == "quick" else 1500):
+        body = [rng.randint(1, 4) for _ in range(rng.randint(1, 4))]
+        lens = [0] * rng.randint(0, 2) + body + [0] * rng.randint(0, 2)
+        if rng.random() < 0.4 and len(body) > 1:
+            lens.insert(rng.randint(1, len(lens) - 1), 0)
+        how = rng.choice(["method", "npfunc"])
+        name = rng.choice(["max", "min", "max", "min", "sum", "prod", "all", "any"]) if how == "method" else rng.choice(["amax", "amin", "max", "min", "sum", "prod", "all", "any"] if "amax" in NPFUNCS else [n for n in NPFUNCS if n not in ("mean", "argmax", "argmin")])
+        if name not in (METHODS if how == "method" else NPFUNCS):
+            continue
+        out.append({"lens": lens, "how": how, "name": name, "dtype": rng.choice(["int64", "float64", "int8", "int32", "float32", "uint8"]), "axis": None, "keepdims": False,
+                    "vseed": rng.randint(0, 999), "vmode": rng.choice(["positive", "negative"]), "derived": None})
     return out
 
 
@@ -87,7 +100,17 @@ def distribution(ps):
 
 
 def _vals(p):
-    return gens.cell_values(p["dtype"], sum(p["lens"]), random.Random(p["vseed"]), mode=p.get("vmode", "small"))
+    vm = p.get("vmode", "small")
+    if vm in ("positive", "negative"):
+        # cells all on one side of zero (so that the extremum of the cells lies on the far side of any 0 an empty row contributes)
+        v = gens.cell_values(p["dtype"], sum(p["lens"]), random.Random(p["vseed"]), mode="small")
+        dt = v.dtype
+        if dt.kind == "b":
+            return np.ones(len(v), dtype=dt)
+        with np.errstate(all="ignore"):
+            mag = (np.abs(v.astype(np.float64)) % 50 + 1).astype(dt)
+        return mag if (vm == "positive" or dt.kind == "u") else (-mag).astype(dt)
+    return gens.cell_values(p["dtype"], sum(p["lens"]), random.Random(p["vseed"]), mode=vm)
 
 
 def _masked(values, lens, need_nonempty):
